@@ -18,7 +18,8 @@ TECHNIQUE = (
     "runtime monitors on the real virtual ECU: no-raise + session-invariant postcondition (icontract on UDSServer.respond) + "
     "client acceptance oracle (UDSResponse.parse_dynamic and helpers.parse_pdu on every reply) + connection-loop survival over "
     "in-memory streams + the virtual ECU behind its real listening socket (UnixUDSServerTransport.run / TCPUDSServerTransport.run, "
-    "as `gallia vecu` starts it) answering real client connections, under generated request histories"
+    "as `gallia vecu` starts it) answering real client connections, under generated request histories and a per-session sweep of dense models "
+    "with value-range reach counters on the fields the ECU draws"
 )
 LEVEL_TEXT = (
     "Exploration: virtual ECUs (seeds x parameter sets) answer histories of up to 2000 requests each (random bytes of length 1..4095, "
@@ -31,14 +32,20 @@ LEVEL_TEXT = (
     "so the streams are the ones the server creates for itself; a plain asyncio client opens several connections one after the other "
     "to the same ECU and sends histories in which every request length class up to 4095 bytes (powers of two and their neighbours, "
     "the ISO-TP maximum, random lengths; random bytes and service-shaped heads) occurs, one request at a time or in bursts; every "
-    "request that is due a reply must get exactly the reply the twin computes, on the same connection, before the client closes."
+    "request that is due a reply must get exactly the reply the twin computes, on the same connection, before the client closes. "
+    "Sweep: densely populated models (nearly every service and sub-function offered, tens of sessions) have every one of their sessions "
+    "entered - along the session changes the ECU itself offers, also where that takes more than one - once per probe, and are asked there "
+    "for every reset type ISO 14229-1 defines, plainly and with the suppress bit, and for their DTCs by status mask; same oracles. The "
+    "value fields of those replies are drawn by the ECU per (model, session, request bytes): the run only counts as held if both ends "
+    "(0x00, 0xFF) of the powerDownTime and DTCStatusAvailabilityMask ranges were seen in replies."
 )
 LEVEL_NOTE = ("Trusted: the in-memory stream stand-ins (vf/memstream.py). Empty requests and non-hex lines are outside the statement. "
               "Requests are at most 4095 bytes long (the largest PDU classic ISO-TP carries), also on the socket path.")
 RULE = (
     "cases = (server seed, parameter set, history prefix, request); requests from the shared generator (vf/models/vecu.gen_request); "
     "non-trivial = the ECU produced a reply (so the client-acceptance oracle ran); distinct = distinct (server, state, request); "
-    "socket mode adds one case per client connection (server, transport kind, connection number, requests sent)"
+    "socket mode adds one case per client connection (server, transport kind, connection number, requests sent); "
+    "the sweep adds cases (dense server, session, reset / DTC request) through the same judge"
 )
 ASSUMPTIONS = ["requests are non-empty byte strings of at most 4095 bytes; lines on the connection loop are valid hex (as the line transports produce)"]
 EXHAUSTIVE = {"quick": False, "thorough": False}
@@ -46,9 +53,9 @@ EXHAUSTIVE = {"quick": False, "thorough": False}
 
 def shards(tier: str, seed: int) -> list[dict[str, Any]]:
     if tier == "quick":
-        return [{"base": f"q{seed}-{i}", "servers": 20, "length": 2000} for i in range(12)] + [{"base": f"loop{seed}-{i}", "servers": 6, "length": 400, "loop": True} for i in range(4)] + [
+        return [{"base": f"q{seed}-{i}", "servers": 20, "length": 2000, "sweep": 6} for i in range(12)] + [{"base": f"loop{seed}-{i}", "servers": 6, "length": 400, "loop": True} for i in range(4)] + [
             {"base": f"sock{seed}-{i}", "servers": 4, "length": 120, "connections": 3, "sock": True} for i in range(2)]
-    return [{"base": f"t{seed}-{i}", "servers": 60, "length": 4000} for i in range(14)] + [{"base": f"loop{seed}-{i}", "servers": 60, "length": 600, "loop": True} for i in range(2)] + [
+    return [{"base": f"t{seed}-{i}", "servers": 60, "length": 4000, "sweep": 24} for i in range(14)] + [{"base": f"loop{seed}-{i}", "servers": 60, "length": 600, "loop": True} for i in range(2)] + [
         {"base": f"sock{seed}-{i}", "servers": 12, "length": 300, "connections": 4, "sock": True} for i in range(2)]
 
 
@@ -58,7 +65,11 @@ def required_reach(tier: str) -> dict[str, int]:
             "long-requests": 10, "inactivity-pause": 20,
             "sock.unix.connections": 4, "sock.tcp.connections": 4, "sock.reconnects": 4, "sock.lockstep-connections": 2,
             "sock.burst-connections": 2, "sock.replies": 500, "sock.len.2^9": 5, "sock.len.2^10": 5, "sock.len.2^11": 5,
-            "sock.len.2^12": 5, "sock.len.max": 3}
+            "sock.len.2^12": 5, "sock.len.max": 3,
+            "sweep.servers": 36, "sweep.sessions": 1500, "sweep.sessions-beyond-default-reach": 200, "sweep.reset-probes": 6000,
+            "sweep.reset-probes-suppressed": 6000, "range.power-down-time.replies": 1000, "range.power-down-time.00": 1,
+            "range.power-down-time.ff": 1, "range.dtc-availability-mask.replies": 2000, "range.dtc-availability-mask.00": 1,
+            "range.dtc-availability-mask.ff": 1}
 
 
 class Mon:
@@ -86,6 +97,18 @@ class Mon:
             wrapped._vf_wrapped = True  # type: ignore[attr-defined]
             UDSServer.respond = wrapped  # type: ignore[method-assign]
 
+    def note_ranges(self, reply: bytes) -> None:
+        """reach only: single-byte reply fields whose value the model draws from a documented range 0x00..0xFF - were both ends seen?"""
+        field = None
+        if len(reply) == 3 and reply[0] == 0x51 and reply[1] == 0x04:
+            field = "range.power-down-time"  # ECUReset/enableRapidPowerShutDown: powerDownTime
+        elif len(reply) >= 3 and reply[0] == 0x59 and reply[1] == 0x02:
+            field = "range.dtc-availability-mask"  # ReadDTCInformation/reportDTCByStatusMask: DTCStatusAvailabilityMask
+        if field is not None:
+            self.ctx.reach(f"{field}.replies")
+            if reply[2] in (0x00, 0xFF):
+                self.ctx.reach(f"{field}.{reply[2]:02x}")
+
     def judge_reply(self, cfg: dict[str, Any], hist: list[bytes], q: bytes, reply: bytes | None) -> None:
         ctx = self.ctx
         s = self.service
@@ -96,6 +119,7 @@ class Mon:
                 ctx.reach("suppressed")
             return
         ctx.reach("replies")
+        self.note_ranges(reply)
         ctx.case((cfg["server_seed"], cfg.get("session"), q), nontrivial=True)
         w = {**cfg, "history": hist[-20:], "request": q, "reply": reply}
         if reply[0] != 0x7F:
@@ -117,8 +141,104 @@ class Mon:
                 ctx.violation(f"client/{form}/{type(e).__name__}/sid-{q[0]:02x}{sub}/reply-{reply[0]:02x}", "gallia's client refuses the virtual ECU's answer to exactly this request", {**w, "error": repr(e)[:300]})
 
 
+# ---- sweep: the same few requests in every session of densely populated models ---------------------------------------
+# Models in which (nearly) everything is offered.  What such an ECU puts into the value fields of a positive reply is drawn per
+# (model, active session, request bytes); a particular value of a one-byte field - the ends of its range above all - therefore only
+# turns up in a few of the (model, session, spelling) combinations, and the long random histories spend their requests elsewhere.
+DENSE_SETS: list[dict[str, Any]] = [
+    {"p_session": 1.0, "p_service": 1.0, "p_sub_function": 1.0, "p_identifier": 1.0, "p_correct_payload_format": 1.0, "p_dtc_status_mask": 1.0},
+    {"p_session": 1.0, "p_service": 0.9, "p_sub_function": 0.8, "p_identifier": 0.5, "p_correct_payload_format": 0.9},
+    {"p_session": 0.7, "p_service": 0.3, "p_sub_function": 0.9, "mandatory_services": [0x10, 0x11, 0x19, 0x3E], "p_identifier": 0.2},
+    {"p_session": 1.0, "p_service": 1.0, "p_sub_function": 1.0, "mandatory_sessions": [1, 2, 3], "optional_sessions": list(range(4, 0x40))},
+]
+RESET_TYPES = (1, 2, 3, 4, 5)  # the reset types ISO 14229-1 defines
+
+
+def route(offered: Any, src: int, dst: int) -> list[int] | None:
+    """sessions to ask for, one DiagnosticSessionControl each, to get from src to dst according to what the ECU says it offers"""
+    prev: dict[int, int] = {src: src}
+    todo = [src]
+    while todo and dst not in prev:
+        s = todo.pop(0)
+        for n in offered.get(s, {}).get(0x10) or []:
+            if n not in prev:
+                prev[n] = s
+                todo.append(n)
+    if dst not in prev:
+        return None
+    path: list[int] = []
+    while dst != src:
+        path.append(dst)
+        dst = prev[dst]
+    return path[::-1]
+
+
+async def sweep(ctx: Any, mon: Mon, params: dict[str, Any]) -> None:
+    """every session a dense model has (also those that take more than one session change to get to) is entered, again and again,
+    and asked there for every defined kind of ECU reset, plainly and with the suppress bit, and for its DTCs by status mask"""
+    rng = ctx.rng
+    for i in range(params.get("sweep", 0)):
+        rp = DENSE_SETS[i % len(DENSE_SETS)]
+        sseed = f"{params['base']}-sweep{i}"
+        cfg: dict[str, Any] = {"server_seed": sseed, "rp": -1, "params": rp}
+        d = vecu.Driver(sseed, rp, vecu.all_switches())
+        await d.setup()
+        offered = d.server.supported_services
+        hist: list[bytes] = []
+        fresh = 0  # hist[fresh:] starts at a freshly reset ECU (default session): enough to get back to the present state
+
+        async def ask(q: bytes) -> bool:
+            nonlocal fresh
+            hist.append(q)
+            cfg["session"] = d.server.state.session
+            mon.cur = {**cfg, "history": hist[fresh:][-20:], "request": q}
+            try:
+                reply, _ = await d.transport.handle_request(q)
+            except Exception as e:
+                ctx.violation(f"raises/{type(e).__name__}/sid-{q[0]:02x}", "virtual ECU raises while answering a request (the connection loop would drop the client)", {**mon.cur, "error": repr(e)})
+                return False
+            mon.judge_reply(cfg, hist[fresh:], q, reply)
+            if reply is not None and reply[0] in (0x50, 0x51) and d.server.state.session == 1:
+                fresh = len(hist)
+            return True
+
+        ctx.reach("sweep.servers")
+        sessions = sorted(offered)
+        rng.shuffle(sessions)
+        alive = True
+        for s in sessions:
+            probes = [bytes([0x11, sf | spr]) for sf in RESET_TYPES for spr in (0, 0x80)]
+            rng.shuffle(probes)
+            probes.insert(0, bytes([0x19, 0x02, rng.choice([0x00, 0xFF, rng.randrange(256)])]))
+            entered = False
+            for p in probes:
+                path = route(offered, d.server.state.session, s)
+                if path is None:
+                    ctx.reach("sweep.no-route")
+                    break
+                for hop in path:
+                    if not (alive := await ask(bytes([0x10, hop]))):
+                        break
+                if not alive or d.server.state.session != s:
+                    break  # whether a session change is granted is C13's business
+                if not entered:
+                    entered = True
+                    ctx.reach("sweep.sessions")
+                    if s != 1 and s not in (offered[1].get(0x10) or []):
+                        ctx.reach("sweep.sessions-beyond-default-reach")
+                if p[0] == 0x11:
+                    ctx.reach("sweep.reset-probes-suppressed" if p[1] & 0x80 else "sweep.reset-probes")
+                if not (alive := await ask(p)):
+                    break
+            if not alive:
+                break
+        if i == 0:
+            ctx.sample({"server_seed": sseed, "params": rp, "sessions": len(sessions), "requests": len(hist), "first_requests": hist[:6]})
+
+
 async def direct(ctx: Any, mon: Mon, params: dict[str, Any]) -> None:
     rng = ctx.rng
+    await sweep(ctx, mon, params)
     for i in range(params["servers"]):
         if ctx.out_of_time():
             break
@@ -552,7 +672,7 @@ def replay(ctx: Any, witness: dict[str, Any]) -> None:
 
     async def go() -> None:
         mon = Mon(ctx)
-        d = vecu.Driver(witness["server_seed"], vecu.PARAM_SETS[witness["rp"]], vecu.all_switches())
+        d = vecu.Driver(witness["server_seed"], witness.get("params") or vecu.PARAM_SETS[witness["rp"]], vecu.all_switches())
         await d.setup()
         hist: list[bytes] = []
         for h in witness.get("history", []):
